@@ -629,7 +629,7 @@ SESSION_SOURCES = {
     "p_map64": {"src": ".map identifier=1 bank_range=0x00, 0x3f addr_range=0x0000, 0xffff mask=0x10000 mirror_bank_range=0x80, 0xbf\n"
                        "*=0x018000\nhere:\n.dl here\n*=0x818000\nmir:\n.dl mir\n@=0x028000\nrel:\n.dl rel\n"},
     # one text mapped twice (the later line wins)
-    "p_tableDup": {"src": "*=0x008000\n.table 't.tbl'\n.text 'abab'\n", "files": {"t.tbl": {"text": "01=a\n02=a\n03=b\n04=b\n05=ab\n06=ab\n"}}},
+    "p_tableDup": {"src": "*=0x008000\n.table 't.tbl'\n.text 'a'\n.text 'b'\n.text 'ab'\n.text 'ba'\n.text 'aa'\n.text 'bb'\n", "files": {"t.tbl": {"text": "01=a\n02=a\n03=b\n04=b\n05=ab\n06=ab\n07=ba\n08=ba\n09=aa\n0A=aa\n0B=bb\n0C=bb\n"}}},
     "p_incbinDash": {"src": "*=0x008000\n.incbin 'font-8x8.bin'\nafter:\n.dl after\n", "files": {"font-8x8.bin": {"bytes": [1, 2, 3, 4, 5]}}},
     "p_fileA": {"entry": "file", "main": "dirA/main.s",
                 "files": {"dirA/main.s": {"text": "*=0x008000\n.include 'defs.s'\n.db val\n"}, "dirA/defs.s": {"text": "val = 1\n"}}},
